@@ -173,6 +173,14 @@ def clean_binary_worker(bdir, tier, lo, hi):
     b = build.Build("asan", bdir)
     split = conf_int(b, "conf-split", 23)
     home = build.mktemp("nqv-c18c-")
+    try:
+        _clean_binary_batches(res, b, split, home, lo, hi)
+    finally:
+        shutil.rmtree(home, ignore_errors=True)      # pool workers do not run atexit handlers
+    return res
+
+
+def _clean_binary_batches(res, b, split, home, lo, hi):
     sandbox.make_home(b, home, bins=("qmail-clean",))
     nreq = 300
     for bi in range(lo, hi):
@@ -211,7 +219,6 @@ def clean_binary_worker(bdir, tier, lo, hi):
             res.inconclusive.append("qmail-clean exit %s: %s" % (rc, e[-200:]))
             continue
         judge_clean_batch(res, home, split, stream, log, outp, before, oldpid, freshpid, wit0)
-    return res
 
 
 def judge_clean_batch(res, home, split, stream, log, outp, before, oldpid, freshpid, wit0):
@@ -530,6 +537,14 @@ def spawn_worker(bdir, tier, which, lo, hi):
     b = build.Build("asan", bdir)
     spawn = conf_int(b, "conf-spawn", 120)
     home = build.mktemp("nqv-c18s-")
+    try:
+        _spawn_batches(res, b, spawn, home, which, lo, hi)
+    finally:
+        shutil.rmtree(home, ignore_errors=True)      # pool workers do not run atexit handlers
+    return res
+
+
+def _spawn_batches(res, b, spawn, home, which, lo, hi):
     os.chmod(home, 0o755)
     prog = "qmail-lspawn" if which == "l" else "qmail-rspawn"
     sandbox.make_home(b, home, bins=(prog, "qmail-getpw"), chown=True)
@@ -574,7 +589,6 @@ def spawn_worker(bdir, tier, which, lo, hi):
             res.inconclusive.append("%s exit %s: %s" % (prog, rc, e[-200:]))
             continue
         judge_spawn_batch(res, home, which, spawn, cmds, pop, content, out, rec, st, quid, exit_plan, wit0)
-    return res
 
 
 def id_class(mid, pop):
